@@ -43,6 +43,8 @@ type VerifDump struct {
 	RewriteInProg  bool
 	LatestSnapshot int64
 	ChangeCount    uint64 // snapshot engine's write counter (hidden state that decides the automatic trigger)
+	ACLUsers       []any             // deep dump of every user profile (order preserved)
+	ACLConns       map[string]string // connection -> "<authenticated>|<username>|same-object-as-table=<bool>"
 	PubSub         []string // subscription table: "<channel>|pattern=<bool>|<conn>,<conn>..." sorted
 }
 
@@ -64,6 +66,26 @@ func (server *SugarDB) VerifDumpState(connNames map[*net.Conn]string) VerifDump 
 		LatestSnapshot: server.latestSnapshotMilliseconds.Load(),
 	}
 	d.PubSub = server.verifPubSubTable()
+	if server.acl != nil {
+		d.ACLConns = map[string]string{}
+		for _, u := range server.acl.Users {
+			d.ACLUsers = append(d.ACLUsers, verifDeep(reflect.ValueOf(u), 0))
+		}
+		for c, info := range server.connInfo.tcpClients {
+			if ac, ok := server.acl.Connections[c]; ok {
+				name, inTable := "<nil>", false
+				if ac.User != nil {
+					name = ac.User.Username
+					for _, u := range server.acl.Users {
+						if u == ac.User {
+							inTable = true
+						}
+					}
+				}
+				d.ACLConns[fmt.Sprintf("c%d", info.Id-1)] = fmt.Sprintf("%v|%s|live=%v", ac.Authenticated, name, inTable)
+			}
+		}
+	}
 	if server.snapshotEngine != nil {
 		if f := reflect.ValueOf(server.snapshotEngine).Elem().FieldByName("changeCount"); f.IsValid() {
 			for f.Kind() == reflect.Struct && f.NumField() > 0 {
